@@ -1,0 +1,101 @@
+//go:build verif
+
+package align
+
+// Contracts for the verification machinery in /verif (govc). This file holds
+// comments only; it is compiled (to nothing) only under the build tag "verif".
+
+// ---- shared vocabulary: the row view of a sequence bag / alignment ----
+
+//@ pure func nrows(sb *seqbag) int = len(sb.seqs)
+//@ pure func row(sb *seqbag, r int) *seq = sb.seqs[r]
+//@ pure func rowlen(sb *seqbag, r int) int = len(sb.seqs[r].sequence)
+//@ pure func cell(sb *seqbag, r int, c int) int = sb.seqs[r].sequence[c]
+//@ pure func rowsok(sb *seqbag) bool = forall r :: 0 <= r && r < len(sb.seqs) ==> sb.seqs[r] != nil
+//@ pure func owns(sb *seqbag) bool = forall r1, r2 :: 0 <= r1 && r1 < r2 && r2 < len(sb.seqs) ==> base(sb.seqs[r1].sequence) != base(sb.seqs[r2].sequence)
+
+// ---- C06: strand and case transforms ----
+
+//@ table complement_nuc_mapping C06
+//@ pure func comp(c int) int = complement_nuc_mapping[c]
+//@ pure func hascomp(c int) bool = has(complement_nuc_mapping, c)
+
+//@ func Reverse
+//@   props C06
+//@   ensures forall k :: 0 <= k && k < len(seq) ==> seq[k] == old(seq[len(seq)-1-k])
+//@   modifies seq[*]
+//@   loop 1
+//@     invariant 0 <= i && j == len(seq)-1-i && i <= j+1
+//@     invariant forall k :: 0 <= k && k < i ==> seq[k] == old(seq[len(seq)-1-k])
+//@     invariant forall k :: j < k && k < len(seq) ==> seq[k] == old(seq[len(seq)-1-k])
+//@     invariant forall k :: i <= k && k <= j ==> seq[k] == old(seq[k])
+//@     decreases j - i + 1
+
+//@ func Complement
+//@   props C06
+//@   ensures err == nil ==> forall k :: 0 <= k && k < len(seq) ==> hascomp(old(seq[k])) && seq[k] == comp(old(seq[k]))
+//@   ensures (forall k :: 0 <= k && k < len(seq) ==> hascomp(old(seq[k]))) ==> err == nil
+//@   modifies seq[*]
+//@   loop 1
+//@     invariant err == nil
+//@     invariant forall k :: 0 <= k && k < $i ==> hascomp(old(seq[k])) && seq[k] == comp(old(seq[k]))
+//@     invariant forall k :: $i <= k && k < len(seq) ==> seq[k] == old(seq[k])
+//@     decreases len(seq) - $i
+
+//@ func (*seq).Reverse
+//@   props C06
+//@   requires s != nil
+//@   ensures forall k :: 0 <= k && k < len(s.sequence) ==> s.sequence[k] == old(s.sequence[len(s.sequence)-1-k])
+//@   ensures s.sequence == old(s.sequence)
+//@   modifies s.sequence[*]
+
+// up8/low8: what uint8(unicode.ToUpper(rune(c))) computes on a byte; on ASCII it is the usual letter-case map (lemmas below)
+//@ pure func up8(c int) int = emod(upper(c), 256)
+//@ pure func low8(c int) int = emod(lower(c), 256)
+//@ pure func isupper(c int) bool = 'A' <= c && c <= 'Z'
+//@ pure func islower(c int) bool = 'a' <= c && c <= 'z'
+
+//@ lemma case_ascii(c int)
+//@   props C06
+//@   requires 0 <= c && c < 128
+//@   ensures up8(c) == (islower(c) ? c - 32 : c)
+//@   ensures low8(c) == (isupper(c) ? c + 32 : c)
+//@   ensures up8(up8(c)) == up8(c) && low8(low8(c)) == low8(c)
+//@   ensures up8(c) < 128 && low8(c) < 128
+//@   ensures (c == '-') == (up8(c) == '-') && (c == '-') == (low8(c) == '-')
+
+//@ func (*seqbag).ToUpper
+//@   props C06
+//@   requires sb != nil && rowsok(sb) && owns(sb)
+//@   ensures forall r, c :: 0 <= r && r < nrows(sb) && 0 <= c && c < rowlen(sb, r) ==> cell(sb, r, c) == up8(old(cell(sb, r, c)))
+//@   ensures forall r :: 0 <= r && r < nrows(sb) ==> row(sb, r) == old(row(sb, r)) && rowlen(sb, r) == old(rowlen(sb, r))
+//@   modifies mem(uint8)
+//@   loop 1
+//@     invariant forall r, c :: 0 <= r && r < $i && 0 <= c && c < rowlen(sb, r) ==> cell(sb, r, c) == up8(old(cell(sb, r, c)))
+//@     invariant forall r, c :: $i <= r && r < nrows(sb) && 0 <= c && c < rowlen(sb, r) ==> cell(sb, r, c) == old(cell(sb, r, c))
+//@     decreases nrows(sb) - $i
+//@   loop 2
+//@     invariant seq == row(sb, $i1 - 1) && 0 <= $i1 - 1 && $i1 - 1 < nrows(sb)
+//@     invariant forall r, c :: 0 <= r && r < $i1 - 1 && 0 <= c && c < rowlen(sb, r) ==> cell(sb, r, c) == up8(old(cell(sb, r, c)))
+//@     invariant forall r, c :: $i1 <= r && r < nrows(sb) && 0 <= c && c < rowlen(sb, r) ==> cell(sb, r, c) == old(cell(sb, r, c))
+//@     invariant forall c :: 0 <= c && c < $i ==> cell(sb, $i1 - 1, c) == up8(old(cell(sb, $i1 - 1, c)))
+//@     invariant forall c :: $i <= c && c < rowlen(sb, $i1 - 1) ==> cell(sb, $i1 - 1, c) == old(cell(sb, $i1 - 1, c))
+//@     decreases rowlen(sb, $i1 - 1) - $i
+
+//@ func (*seqbag).ToLower
+//@   props C06
+//@   requires sb != nil && rowsok(sb) && owns(sb)
+//@   ensures forall r, c :: 0 <= r && r < nrows(sb) && 0 <= c && c < rowlen(sb, r) ==> cell(sb, r, c) == low8(old(cell(sb, r, c)))
+//@   ensures forall r :: 0 <= r && r < nrows(sb) ==> row(sb, r) == old(row(sb, r)) && rowlen(sb, r) == old(rowlen(sb, r))
+//@   modifies mem(uint8)
+//@   loop 1
+//@     invariant forall r, c :: 0 <= r && r < $i && 0 <= c && c < rowlen(sb, r) ==> cell(sb, r, c) == low8(old(cell(sb, r, c)))
+//@     invariant forall r, c :: $i <= r && r < nrows(sb) && 0 <= c && c < rowlen(sb, r) ==> cell(sb, r, c) == old(cell(sb, r, c))
+//@     decreases nrows(sb) - $i
+//@   loop 2
+//@     invariant seq == row(sb, $i1 - 1) && 0 <= $i1 - 1 && $i1 - 1 < nrows(sb)
+//@     invariant forall r, c :: 0 <= r && r < $i1 - 1 && 0 <= c && c < rowlen(sb, r) ==> cell(sb, r, c) == low8(old(cell(sb, r, c)))
+//@     invariant forall r, c :: $i1 <= r && r < nrows(sb) && 0 <= c && c < rowlen(sb, r) ==> cell(sb, r, c) == old(cell(sb, r, c))
+//@     invariant forall c :: 0 <= c && c < $i ==> cell(sb, $i1 - 1, c) == low8(old(cell(sb, $i1 - 1, c)))
+//@     invariant forall c :: $i <= c && c < rowlen(sb, $i1 - 1) ==> cell(sb, $i1 - 1, c) == old(cell(sb, $i1 - 1, c))
+//@     decreases rowlen(sb, $i1 - 1) - $i
